@@ -134,10 +134,20 @@ func c14Package(rng *rand.Rand, idx int) (rcase, []c14op) {
 					plans[i].gotype += "JSON"
 				}
 			}
-			if rng.Intn(2) == 0 {
+			// the first operations use one component under different statuses (and its alias under yet another); the rest at random
+			forced := []struct {
+				sh int
+				st string
+			}{{0, "404"}, {0, "409"}, {2, "410"}, {1, "409"}, {1, "404"}}
+			if len(ops) < len(forced) || rng.Intn(2) == 0 {
 				sh := shared[rng.Intn(len(shared))]
 				pl := sh.pl
 				pl.status = []string{"404", "409", "410"}[rng.Intn(3)]
+				if len(ops) < len(forced) {
+					sh = shared[forced[len(ops)].sh]
+					pl = sh.pl
+					pl.status = forced[len(ops)].st
+				}
 				pl.gotype, pl.comp = sh.name+"Response", sh.name
 				o.Responses = append(o.Responses, dialect.Response{Status: pl.status, Ref: sh.name})
 				plans = append(plans, pl)
